@@ -184,6 +184,9 @@ package evaluator
 //@   propagates (*Evaluator).eval
 //@   loop 1 invariant e.scope == old(e.scope) && pending() == nil && storeOK() && fresh(result) && len(result) == len(terms) && off(result) == 0 && -1 <= rangeindex && rangeindex < len(terms)
 //@   loop 1 invariant forall(i, int, 0 <= i && i <= rangeindex ==> okValue(result[i]))
+//@   ensures[C01 C08 left-to-right] forall(j, int, 1 <= j && j <= ncalls("(*Evaluator).eval") ==> callarg("(*Evaluator).eval", j, 1) == terms[j-1])
+//@   ensures[C01 all-evaluated] ncalls("(*Evaluator).eval") <= len(terms) && (err == nil ==> ncalls("(*Evaluator).eval") == len(terms))
+//@   loop 1 invariant ncalls("(*Evaluator).eval") == rangeindex + 1 && forall(j, int, 1 <= j && j <= rangeindex + 1 ==> callarg("(*Evaluator).eval", j, 1) == terms[j-1])
 
 // ---- expressions (docs/spec.md, Operators and Expressions) ----
 // kind(n): static type kind of expression n as assigned by the parser (1 num, 2 string, 3 bool, 4 any, 5 array, 6 map).
@@ -351,6 +354,8 @@ package evaluator
 //@   ensures[C09 fresh] fresh(r) && valKind(r) == valKind(val) && okValue(r)
 //@   ensures[C09 basic] copyRel1(r, val) || isComposite(val) || is(val, *anyVal)
 //@   ensures[C09 array] is(val, *arrayVal) ==> fresh(r.(*arrayVal).Elements) && fresh(*r.(*arrayVal).Elements) && off(*r.(*arrayVal).Elements) == 0 && len(*r.(*arrayVal).Elements) == len(*val.(*arrayVal).Elements) && forall(j, int, 0 <= j && j < len(*r.(*arrayVal).Elements) ==> fresh((*r.(*arrayVal).Elements)[j]) && okValue((*r.(*arrayVal).Elements)[j]))
+//@   ensures[C09 C08 C12 map-order] is(val, *mapVal) ==> fresh(r.(*mapVal).Order) && fresh(*r.(*mapVal).Order) && fresh(r.(*mapVal).Pairs) && len(*r.(*mapVal).Order) == len(*val.(*mapVal).Order) && forall(i, int, 0 <= i && i < len(*val.(*mapVal).Order) ==> (*r.(*mapVal).Order)[i] == (*val.(*mapVal).Order)[i])
+//@   ensures[C09 C12 map-keys] is(val, *mapVal) ==> forall(k, string, has(r.(*mapVal).Pairs, k) ==> exists(i, int, 0 <= i && i < len(*val.(*mapVal).Order) && (*val.(*mapVal).Order)[i] == k))
 //@   ensures[C02 store] storeOK()
 //@   mustfail ensures[C09 canary] r == val
 //@   modifies nothing
@@ -359,6 +364,8 @@ package evaluator
 //@   loop 1 modifies elements[*]
 //@   loop 2 invariant -1 <= rangeindex && storeOK() && fresh(mapCopy.Pairs) && fresh(mapCopy.Order) && forall(k, string, has(mapCopy.Pairs, k) ==> okValue(mapCopy.Pairs[k]))
 //@   loop 2 invariant forall(i, int, 0 <= i && i < len(*v.Order) ==> has(v.Pairs, (*v.Order)[i]) && okValue(v.Pairs[(*v.Order)[i]]))
+//@   loop 2 invariant rangeindex < len(*v.Order) && fresh(newOrder) && len(newOrder) == len(*v.Order) && forall(i, int, 0 <= i && i < len(*v.Order) ==> newOrder[i] == (*v.Order)[i])
+//@   loop 2 invariant forall(k, string, has(mapCopy.Pairs, k) ==> exists(i, int, 0 <= i && i <= rangeindex && (*v.Order)[i] == k))
 //@   loop 2 modifies mapCopy.Pairs[*]
 
 //@ func evalBinaryArrayExpr(op parser.Operator, left *arrayVal, right value) (r value, err error)
@@ -450,7 +457,7 @@ package evaluator
 //@   modifies allbut evalFrame
 //@   propagates (*Evaluator).eval
 
-//@ global forall(m, *parser.MapLiteral, wf(parser.Node(m)) ==> m != nil && forall(k, string, has(m.Pairs, k) ==> m.Pairs[k] != nil && wf(m.Pairs[k]) && isExpr(m.Pairs[k])) && forall(i, int, 0 <= i && i < len(m.Order) ==> has(m.Pairs, m.Order[i])))
+//@ global forall(m, *parser.MapLiteral, wf(parser.Node(m)) ==> m != nil && forall(k, string, has(m.Pairs, k) ==> m.Pairs[k] != nil && wf(m.Pairs[k]) && isExpr(m.Pairs[k])) && forall(i, int, 0 <= i && i < len(m.Order) ==> has(m.Pairs, m.Order[i])) && forall(k, string, has(m.Pairs, k) ==> exists(i, int, 0 <= i && i < len(m.Order) && m.Order[i] == k)))
 //@ global forall(a, *parser.AssignmentStmt, wf(parser.Node(a)) ==> (is(a.Target, *parser.Var) || is(a.Target, *parser.IndexExpression) || is(a.Target, *parser.DotExpression)) && ref(a.Target) != 0 && (is(a.Target, *parser.IndexExpression) ==> kind(a.Target.(*parser.IndexExpression).Left) == 5 || kind(a.Target.(*parser.IndexExpression).Left) == 6))
 
 //@ func (e *Evaluator) evalAssignment(assignment *parser.AssignmentStmt) (err error)
@@ -513,7 +520,10 @@ package evaluator
 //@   loop 1 invariant e.scope == old(e.scope) && pending() == nil && storeOK() && fresh(pairs)
 //@   loop 1 invariant forall(k, string, has(pairs, k) ==> okValue(pairs[k]))
 //@   loop 1 invariant forall(k, string, has(pairs, k) ==> has(m.Pairs, k))
-//@   loop 1 invariant forall(k, string, has(pairs, k) == seen(k))
+//@   loop 1 invariant forall(k, string, has(pairs, k) <==> exists(i, int, 0 <= i && i <= rangeindex && m.Order[i] == k))
+//@   ensures[C08 C01 literal-eval-order] forall(j, int, 1 <= j && j <= ncalls("(*Evaluator).eval") ==> callarg("(*Evaluator).eval", j, 1) == m.Pairs[m.Order[j-1]])
+//@   ensures[C08 C01 all-evaluated] ncalls("(*Evaluator).eval") <= len(m.Order) && (err == nil ==> ncalls("(*Evaluator).eval") == len(m.Order))
+//@   loop 1 invariant -1 <= rangeindex && rangeindex < len(m.Order) && ncalls("(*Evaluator).eval") == rangeindex + 1 && forall(j, int, 1 <= j && j <= rangeindex + 1 ==> callarg("(*Evaluator).eval", j, 1) == m.Pairs[m.Order[j-1]])
 
 //@ func (e *Evaluator) evalNum(n parser.Node) (f float64, err error)
 //@   props C10 C14 C02
